@@ -56,46 +56,30 @@ theorem homogeneous_cases (it : Item) (tl : List Item) (h : homogeneous (it :: t
 
 /-! ### the empty chunk -/
 
-theorem evalChunk_nil (fx : Facts) (fuel : Nat) (s : State) (hwf : WF s) (hm : lookup "main" s.c.tab.syms = none) :
+theorem evalChunk_nil (fx : Facts) (hg : Good fx) (fuel : Nat) (s : State) (hwf : WF s) :
     evalChunk fx fuel .file s [] = s := by
   have hres : resizeCells fx s.r.cells s.c.tab.nvars = s.r.cells := by
     unfold resizeCells
     rw [if_pos (by rw [hwf.cells]; exact Nat.le_refl _)]
   unfold evalChunk
-  simp [hasDup, regItems, localsOk, stmtsOk, compileItems, varDepsOk, progOf, phase, mainCall_nil fx _ hm, execAll,
+  simp [hasDup, regItems, localsOk, stmtsOk, compileItems, varDepsOk, varDeps, progOf, phase, mainCall_nil fx hg s hwf _ rfl, execAll,
     RState.resize, hres]
 
 /-! ### a session of texts -/
 
-theorem depsLocal_flatten : ∀ (L : List (List Item)), (∀ t ∈ L, depsLocal t = true) → depsLocal L.flatten = true := by
-  intro L
-  induction L with
-  | nil => intro _; rfl
-  | cons t L ih =>
-    intro h
-    rw [List.flatten_cons]
-    exact depsLocal_append t _ (h t (List.mem_cons_self ..)) (ih (fun u hu => h u (List.mem_cons_of_mem _ hu)))
-
-theorem dom_noMain (fx : Facts) (s : State) (items : List Item) (h : Dom fx s items = true) :
-    lookup "main" s.c.tab.syms = none := by
-  unfold Dom noMain at h
-  simp only [Bool.and_eq_true, Option.isNone_iff_eq_none] at h
-  exact h.2.1
-
-/-- **a session equals the whole program**: texts of one kind each, in the domain, every
-    initialiser naming only variables of its own text -/
+/-- **a session equals the whole program**: texts of one kind each, in the domain -/
 theorem texts_eq_whole (fx : Facts) (hg : Good fx) (fuel : Nat) : ∀ (L : List (List Item)) (s : State),
-    WF s → Dom fx s L.flatten = true → (∀ t ∈ L, homogeneous t = true ∧ depsLocal t = true) →
+    WF s → Dom fx s L.flatten = true → (∀ t ∈ L, homogeneous t = true) →
     L.foldl (evalText fx fuel) s = evalWhole fx fuel s L.flatten := by
   intro L
   induction L with
   | nil =>
     intro s hwf hdom _
     simp only [List.foldl_nil, List.flatten_nil, evalWhole]
-    exact (evalChunk_nil fx fuel s hwf (dom_noMain fx s _ hdom)).symm
+    exact (evalChunk_nil fx hg fuel s hwf).symm
   | cons t L ih =>
     intro s hwf hdom hL
-    have hL' : ∀ u ∈ L, homogeneous u = true ∧ depsLocal u = true := fun u hu => hL u (List.mem_cons_of_mem _ hu)
+    have hL' : ∀ u ∈ L, homogeneous u = true := fun u hu => hL u (List.mem_cons_of_mem _ hu)
     rw [List.foldl_cons, List.flatten_cons]
     cases t with
     | nil =>
@@ -104,14 +88,13 @@ theorem texts_eq_whole (fx : Facts) (hg : Good fx) (fuel : Nat) : ∀ (L : List 
     | cons it tl =>
       have hh := (hL (it :: tl) (List.mem_cons_self ..))
       rw [List.flatten_cons] at hdom
-      have hdr := depsLocal_flatten L (fun u hu => (hL' u hu).2)
-      rcases homogeneous_cases it tl hh.1 with hd | hs
+      rcases homogeneous_cases it tl hh with hd | hs
       · rw [evalText_decl fx hg fuel s it tl hd]
-        obtain ⟨e, hwf1, hdom1⟩ := evalChunk_append fx hg fuel .file s (it :: tl) L.flatten hwf hdom (Or.inl ⟨rfl, hd⟩) hh.2 hdr
+        obtain ⟨e, hwf1, hdom1⟩ := evalChunk_append fx hg fuel .file s (it :: tl) L.flatten hwf hdom (Or.inl ⟨rfl, hd⟩)
         rw [ih _ hwf1 hdom1 hL']
         exact e
       · rw [evalText_stmt fx hg fuel s it tl hs]
-        obtain ⟨e, hwf1, hdom1⟩ := evalChunk_append fx hg fuel .block s (it :: tl) L.flatten hwf hdom (Or.inr ⟨rfl, hs⟩) hh.2 hdr
+        obtain ⟨e, hwf1, hdom1⟩ := evalChunk_append fx hg fuel .block s (it :: tl) L.flatten hwf hdom (Or.inr ⟨rfl, hs⟩)
         rw [ih _ hwf1 hdom1 hL']
         exact e
 
@@ -202,18 +185,10 @@ theorem flatMap_runs_flatten : ∀ (chunks : List (List Item)), (chunks.flatMap 
   | nil => rfl
   | cons c chunks ih => simp [List.flatMap_cons, runs_flatten, ih]
 
-theorem depsLocal_of_indirect (t : List Item) (h : ∀ it ∈ t, it.initVars.isEmpty = true) : depsLocal t = true := by
-  unfold depsLocal
-  rw [List.all_eq_true]
-  intro it hit
-  have := h it hit
-  rw [List.isEmpty_iff] at this
-  simp [this]
-
-/-- **for every way of cutting**: a program in the domain whose initialisers name no variable
-    directly, cut anywhere, each chunk handed to the interpreter as its maximal runs -/
+/-- **for every way of cutting**: a program in the domain, cut anywhere, each chunk handed to the
+    interpreter as its maximal runs -/
 theorem cuts_eq_whole (fx : Facts) (hg : Good fx) (fuel : Nat) (s : State) (items : List Item) (hwf : WF s)
-    (hdom : Dom fx s items = true) (hi : initsIndirect items = true) (cuts : List Nat) :
+    (hdom : Dom fx s items = true) (cuts : List Nat) :
     evalPieces fx fuel s (split cuts items) = evalWhole fx fuel s items := by
   rw [evalPieces_eq]
   have hfl : ((split cuts items).flatMap runs).flatten = items := by rw [flatMap_runs_flatten, split_flatten]
@@ -221,11 +196,6 @@ theorem cuts_eq_whole (fx : Facts) (hg : Good fx) (fuel : Nat) (s : State) (item
   · rw [this, hfl]
   · intro t ht
     obtain ⟨c, _, htc⟩ := List.mem_flatMap.mp ht
-    refine ⟨runs_homogeneous c t htc, depsLocal_of_indirect t ?_⟩
-    intro it hit
-    have hmem : it ∈ ((split cuts items).flatMap runs).flatten := List.mem_flatten.mpr ⟨t, ht, hit⟩
-    rw [hfl] at hmem
-    unfold initsIndirect at hi
-    exact (List.all_eq_true.mp hi) it hmem
+    exact runs_homogeneous c t htc
 
 end YaegiVerif.Proofs.C11
